@@ -246,7 +246,7 @@ func runSeq(prop, tier string, sc *core.Scratch, ev *core.Evidence, rep *core.Re
 		ev.Add("evaluations", int64(r.Histories))
 		ev.Add("steps_replayed", int64(r.Steps))
 		ev.Distinct(fmt.Sprintf("%s|%v", r.Mock, r.Map))
-		if i%97 == 0 {
+		if i%97 == 0 || len(ev.Coverage["samples"].([]any)) == 0 {
 			ev.Sample(map[string]any{"mock": r.Mock, "map": r.Map, "histories_replayed": r.Histories, "steps": r.Steps, "nilRec": r.NilRec})
 		}
 		reported := false
